@@ -10,7 +10,15 @@ Verdict(e) ==
           ELSE IF Len(e.val) # Len(e.data) THEN "PerSliceSeparation"
           ELSE IF IntegrateOk(e) THEN "ok" ELSE "WeightedVoxelSum")
     [] e.op = "rejected" -> (IF e.documented = 1 THEN "ok" ELSE "IntegrateTotal")
-    [] e.op = "normalize" -> (IF e.relexp <= -9 THEN "ok" ELSE "NormalizeEqualises")
+    \* normalize(img, ref): ia / iref = integer integrals of img / ref per time step and component (harness units);
+    \* relexp[k] = decimal exponent of |integral(result)[k] - iref[k]| / |iref[k]|, ratioexp[k] likewise for ratio[k] * ia[k]
+    [] e.op = "normalize" ->
+         (IF Len(e.ia) # Len(e.iref) \/ \E k \in DOMAIN e.ia : e.ia[k] = 0 \/ e.iref[k] = 0 THEN "HarnessScenario"
+          ELSE IF e.raised = 1 THEN "NormalizeTotal"
+          ELSE IF Len(e.relexp) # Len(e.ia) THEN "PerSliceSeparation"
+          ELSE IF \E k \in DOMAIN e.ia : e.relexp[k] > -9 THEN "NormalizeEqualises"
+          ELSE IF \E k \in DOMAIN e.ia : e.ratioexp[k] > -9 THEN "RatioIsQuotientOfIntegrals"
+          ELSE "ok")
 Judge(e) == LET r == Verdict(e) IN IF r = "ok" THEN TRUE ELSE PrintT(<<"BAD", e.tid, l, r>>)
 Next == /\ l <= Len(Lines)
         /\ Judge(Lines[l])
